@@ -1818,8 +1818,9 @@ func init() {
 // ---------- reflect: just enough for "is the dynamic type one of ..." and Len ----------
 
 type reflValue struct {
-	v Value
-	t types.Type
+	v    Value
+	t    types.Type
+	addr *Value // where the value lives when it was reached through a pointer (settable)
 }
 
 func init() {
@@ -1946,6 +1947,92 @@ func init() {
 			}
 			return rv.v
 		}
+	}
+	reflKindName := func(t types.Type) string {
+		if t == nil {
+			return "invalid"
+		}
+		switch t.Underlying().(type) {
+		case *types.Map:
+			return "map"
+		case *types.Slice:
+			return "slice"
+		case *types.Struct:
+			return "struct"
+		case *types.Signature:
+			return "func"
+		case *types.Chan:
+			return "chan"
+		case *types.Array:
+			return "array"
+		case *types.Basic:
+			return t.Underlying().String()
+		}
+		return "other"
+	}
+	// Elem of a pointer is the (settable) pointee; of anything else that is not an interface a panic,
+	// as in the library.
+	I["(reflect.Value).Elem"] = func(m *Machine, fr *frame, fn *ssa.Function, a []Value) Value {
+		rv := reflOf(m, a[0])
+		if rv.t == nil {
+			m.rtPanic("reflect: call of reflect.Value.Elem on zero Value")
+		}
+		pt, ok := rv.t.Underlying().(*types.Pointer)
+		if !ok {
+			m.rtPanic("reflect: call of reflect.Value.Elem on " + reflKindName(rv.t) + " Value")
+		}
+		ptr, ok := rv.v.(*Value)
+		if !ok || ptr == nil {
+			return reflValue{}
+		}
+		return reflValue{v: m.load(ptr), t: pt.Elem(), addr: ptr}
+	}
+	reflTypeObj := func(m *Machine, t types.Type) Value {
+		pkg := m.eng.prog.ImportedPackage("reflect")
+		if pkg == nil {
+			m.unsupported("reflect not loaded")
+		}
+		key := "rtype:" + t.String()
+		obj, ok := m.ghost[key].(*Value)
+		if !ok {
+			obj = new(Value)
+			*obj = Str{s: t.String()}
+			m.ghost[key] = obj
+		}
+		m.ghost["rtypeT:"+t.String()] = t
+		return Iface{T: types.NewPointer(pkg.Type("rtype").Type()), V: obj}
+	}
+	I["(reflect.Value).Type"] = func(m *Machine, fr *frame, fn *ssa.Function, a []Value) Value {
+		rv := reflOf(m, a[0])
+		if rv.t == nil {
+			m.rtPanic("reflect: call of reflect.Value.Type on zero Value")
+		}
+		return reflTypeObj(m, rv.t)
+	}
+	I["reflect.Zero"] = func(m *Machine, fr *frame, fn *ssa.Function, a []Value) Value {
+		it, _ := a[0].(Iface)
+		obj, ok := it.V.(*Value)
+		if !ok || obj == nil {
+			m.rtPanic("reflect: Zero(nil)")
+		}
+		name, _ := (*obj).(Str)
+		t, ok := m.ghost["rtypeT:"+name.s].(types.Type)
+		if !ok {
+			m.unsupported("reflect.Zero of a type of unknown origin")
+		}
+		return reflValue{v: zero(t), t: t}
+	}
+	I["(reflect.Value).Set"] = func(m *Machine, fr *frame, fn *ssa.Function, a []Value) Value {
+		rv := reflOf(m, a[0])
+		x := reflOf(m, a[1])
+		if rv.addr == nil {
+			m.rtPanic("reflect: reflect.Value.Set using unaddressable value")
+		}
+		if x.t == nil || !types.AssignableTo(x.t, rv.t) {
+			m.rtPanic("reflect.Set: value is not assignable to the target's type")
+		}
+		*rv.addr = copyVal(x.v)
+		return nil
 	}
 	I["(reflect.Value).Interface"] = func(m *Machine, fr *frame, fn *ssa.Function, a []Value) Value {
 		rv := reflOf(m, a[0])
